@@ -959,7 +959,9 @@ func cmapFamily(budget time.Duration) mc.Family {
 	pro := "%!PS-Adobe-3.0 Resource-CMap\n/CIDInit /ProcSet findresource begin\n12 dict begin\nbegincmap\n/CMapName /Test def\n/CMapType 1 def\n"
 	epi := "\nendcmap\nCMapName currentdict /CMap defineresource pop\nend\nend\n"
 	bodies := []string{}
-	vals := []string{"<00>", "<ffff>", "<>", "1", "-1", "9223372036854775807", "/n", "[1]", "[/a /b]", "(s)", "mark", "{}", "currentdict", "1.5"}
+	vals := []string{"<00>", "<ffff>", "<>", "1", "-1", "9223372036854775807", "/n", "[1]", "[/a /b]", "(s)", "mark", "{}", "currentdict", "1.5",
+		// codes of 8 and 9 bytes (differences beyond 63 bits), an array of strings as destination
+		"<0000000000000000>", "<8000000000000000>", "<ffffffffffffffffff>", "[<0041> <0042>]"}
 	kinds := []string{"codespacerange", "cidchar", "cidrange", "bfchar", "bfrange", "notdefchar", "notdefrange"}
 	for _, k := range kinds {
 		for _, cnt := range []string{"0", "1", "2", "100", "101", "-1", "9223372036854775807", "(x)", ""} {
@@ -972,7 +974,7 @@ func cmapFamily(budget time.Duration) mc.Family {
 	}
 	return mc.Family{
 		Name: "cmap-reader-bodies", Items: len(bodies), Budget: budget,
-		Rule: "ReadCMap on the standard resource prologue/epilogue around every block `count begin<kind> a b a end<kind>` for 7 kinds x 9 declared counts (incl. -1, 101, maxint, a string, missing) x 14 x 14 operand values of every type; x {with, without} the epilogue; non-trivial = every case",
+		Rule: "ReadCMap on the standard resource prologue/epilogue around every block `count begin<kind> a b a end<kind>` for 7 kinds x 9 declared counts (incl. -1, 101, maxint, a string, missing) x 18 x 18 operand values of every type (incl. codes of 8 and 9 bytes and arrays of strings); x {with, without} the epilogue; non-trivial = every case",
 		Body: func(c *mc.Ctx, item int) mc.Verdict {
 			in := pro + bodies[item]
 			if c.Choose(2) == 0 {
